@@ -99,6 +99,35 @@ def Concat(*parts):
     return res
 
 
+AXIOMS = []          # global (sort-level) list axioms, picked up by the engine
+_CONCAT = {}
+
+
+def concat_fn(list_srt):
+    """Dafny-style append: uninterpreted function with trigger-driven axioms (membership in a ++ b needs the instance
+    At(a ++ b, len a + i) == At(b, i), which e-matching cannot invent from a lambda)"""
+    k = str(list_srt)
+    if k in _CONCAT:
+        return _CONCAT[k]
+    dt, es = _BY_SORT[k]
+    f = z3.Function("concat!" + k, list_srt, list_srt, list_srt)
+    _CONCAT[k] = f
+    a, b = z3.Const("a!cc", list_srt), z3.Const("b!cc", list_srt)
+    i = z3.Int("i!cc")
+    c = f(a, b)
+    la, lb = dt.len(a), dt.len(b)
+    at = lambda t, j: z3.Select(dt.arr(t), j)
+    ok = z3.And(la >= 0, lb >= 0)
+    AXIOMS.append(z3.ForAll([a, b], z3.Implies(ok, dt.len(c) == la + lb), patterns=[c]))
+    AXIOMS.append(z3.ForAll([a, b, i], z3.Implies(ok, at(c, i) == z3.If(i < 0, dflt(es), z3.If(i < la, at(a, i), z3.If(i < la + lb, at(b, i - la), dflt(es))))),
+                            patterns=[at(c, i)]))
+    AXIOMS.append(z3.ForAll([a, b, i], z3.Implies(z3.And(ok, 0 <= i, i < lb), at(c, la + i) == at(b, i)),
+                            patterns=[z3.MultiPattern(c, at(b, i))]))
+    AXIOMS.append(z3.ForAll([a, b, i], z3.Implies(z3.And(ok, 0 <= i, i < la), at(c, i) == at(a, i)),
+                            patterns=[z3.MultiPattern(c, at(a, i))]))
+    return f
+
+
 def _concat2(a, b):
     if _is_empty(b):
         return a
@@ -107,11 +136,7 @@ def _concat2(a, b):
     x = _is_unit(b)
     if x is not None:
         return Snoc(a, x)
-    dt, es = _info(a)
-    _lam[0] += 1
-    i = z3.Int(f"i!cat{_lam[0]}")
-    la = dt.len(a)
-    return dt.mkl(la + dt.len(b), z3.Lambda([i], z3.If(i < la, z3.Select(dt.arr(a), i), z3.Select(dt.arr(b), i - la))))
+    return concat_fn(a.sort())(a, b)
 
 
 def Extract(t, off, ln):
@@ -148,6 +173,21 @@ def Canonical(t):
     else:
         q = z3.ForAll([i], body)
     return z3.And(dt.len(t) >= 0, q)
+
+
+def NonNegLen(t):
+    dt, es = _info(t)
+    return dt.len(t) >= 0
+
+
+def CellsCanonical(t):
+    dt, es = _info(t)
+    _lam[0] += 1
+    i = z3.Int(f"i!can{_lam[0]}")
+    body = z3.Implies(z3.Or(i < 0, i >= dt.len(t)), z3.Select(dt.arr(t), i) == dflt(es))
+    if pattern_ok(t):
+        return z3.ForAll([i], body, patterns=[z3.Select(dt.arr(t), i)])
+    return z3.ForAll([i], body)
 
 
 def pattern_ok(t):
